@@ -1080,6 +1080,82 @@ example : errQ (EGLoop.tableOf r2P.c ((EGLoop.run r2P r2O).certs.getD 5 default)
         have : j = 0 ∨ j = 1 := by have : j < 2 := hj; omega
         rcases this with rfl | rfl <;> decide +kernel⟩).1
 
+/-! the same class with the LINEAR-PROGRAMMING step switched on: the hypothesis `hlp` of `loop_Q_prob`,
+`loop_weights_prob`, `loop_weights_padded_prob` (every LP answer is a probability vector — for ALL indices, also the
+ones the run never asks for) and `hlpl` of the guarantee theorems are met; the LP iterate is chosen at t = 4, the cache
+is hit at t = 2, 3 and 5, the returned `weights_ = (1/5, 4/5)` is the exact constrained optimum with `best_gap_ = 0`, and the
+error guarantee is TIGHT up to `_PRECISION`: 2/5 ≤ 2/5 + 2·0 + 1e-8. -/
+def r2Plp : EGLoop.Params := { r2P with runLP := true }
+def r2Olp : EGLoop.Oracles := ⟨r2O.h, fun k => if k = 0 then ⟨[1], [0, 0]⟩ else ⟨[1/5, 4/5], [1, 0]⟩⟩
+
+theorem r2lp_loopHyp : LoopHyp r2Plp := ⟨by decide +kernel, r2e_pos, by decide +kernel⟩
+
+theorem r2lp_isProb : ∀ k, IsProb (r2Olp.lp k).Q := by
+  intro k
+  by_cases hk : k = 0
+  · simp only [r2Olp, hk, if_true]; exact ⟨by decide +kernel, by decide +kernel⟩
+  · simp only [r2Olp, hk, if_false]; exact ⟨by decide +kernel, by decide +kernel⟩
+
+theorem r2lp_lam_nonneg : ∀ k, ∀ x ∈ (r2Olp.lp k).lam, 0 ≤ x := by
+  intro k
+  by_cases hk : k = 0
+  · simp only [r2Olp, hk, if_true]; decide +kernel
+  · simp only [r2Olp, hk, if_false]; decide +kernel
+
+theorem r2lp_best : bestIterOf (run r2Plp r2Olp) = some 5 := by decide +kernel
+
+example : (run r2Plp r2Olp).fromLP = [false, false, false, false, true, true] ∧ (run r2Plp r2Olp).lpCalls = 2 ∧
+    (run r2Plp r2Olp).cacheHits = 3 ∧ (run r2Plp r2Olp).gaps.getD 5 0 = 0 ∧
+    weightsOf (run r2Plp r2Olp) = [1/5, 4/5] := by decide +kernel
+
+/-- `loop_weights_padded_prob` applied: the fitted `weights_` is a probability vector -/
+example : IsProb (weightsOf (run r2Plp r2Olp)) :=
+  loop_weights_padded_prob r2Olp r2lp_loopHyp r2lp_isProb (by rw [r2lp_best]; simp)
+
+theorem r2lp_exact : ∀ i < exT.nH,
+    storedValue ((run r2Plp r2Olp).certs.getD 5 default).1.lamHat (r2Olp.h ((run r2Plp r2Olp).certs.getD 5 default).1.k)
+      ≤ classValue exT ((run r2Plp r2Olp).certs.getD 5 default).1.lamHat i := by decide +kernel
+
+/-- `loop_guarantees_explicit` applied to the LP iterate: the bound is tight up to `_PRECISION` -/
+example : errQ (tableOf r2Plp.c ((run r2Plp r2Olp).certs.getD 5 default).1.hs) (vec ((run r2Plp r2Olp).qs.getD 5 [])) = 2/5 ∧
+    errQ exT exQ + 2 * (run r2Plp r2Olp).gaps.getD 5 0 + EGGen.precision = 2/5 + EGGen.precision ∧
+    errQ (tableOf r2Plp.c ((run r2Plp r2Olp).certs.getD 5 default).1.hs) (vec ((run r2Plp r2Olp).qs.getD 5 []))
+      ≤ errQ exT exQ + 2 * (run r2Plp r2Olp).gaps.getD 5 0 + EGGen.precision := by
+  refine ⟨by decide +kernel, by decide +kernel, ?_⟩
+  exact ((loop_guarantees_explicit r2Olp exT r2lp_loopHyp rfl rfl r2_antiSym r2_members r2lp_lam_nonneg 5 r2lp_best).2.2.2
+    r2lp_exact exQ
+    ⟨by decide +kernel, fun i hi => by
+        have : i = 0 ∨ i = 1 := by have : i < 2 := hi; omega
+        rcases this with rfl | rfl <;> decide +kernel,
+      fun j hj => by
+        have : j = 0 ∨ j = 1 := by have : j < 2 := hj; omega
+        rcases this with rfl | rfl <;> decide +kernel⟩).1
+
+/-- vacuity of `loop_early_stop` (and of the early-stop clause): with a budget of 8 the LP-enabled run above leaves after 6
+    iterations — the break is taken at t = 5 = _MIN_ITER with gap 0 < nu -/
+def r2Plp8 : EGLoop.Params := { r2Plp with maxIter := 8 }
+theorem r2lp8_loopHyp : LoopHyp r2Plp8 := ⟨by decide +kernel, r2e_pos, by decide +kernel⟩
+example : (run r2Plp8 r2Olp).t = 6 ∧ (run r2Plp8 r2Olp).t < r2Plp8.maxIter ∧ (run r2Plp8 r2Olp).done = true ∧
+    bestIterOf (run r2Plp8 r2Olp) = some 5 ∧ (run r2Plp8 r2Olp).gaps.getD 5 0 = 0 ∧ r2Plp8.nu = 1/100 := by decide +kernel
+example : ∃ b, bestIterOf (run r2Plp8 r2Olp) = some b ∧ (run r2Plp8 r2Olp).gaps.getD b 0 < r2Plp8.nu :=
+  (loop_early_stop r2Olp r2lp8_loopHyp (by decide +kernel)).2.2
+
+/-- vacuity of `project_raises_L` / `project_preserves_best_response`: `exT` has m = 1, uniform bound 1/10, and every
+    mixture has antisymmetric constraint values; the multiplier (3, 1) projects to (2, 0) and L rises from 1/5 to 2/5 -/
+example : exT.nC = 1 + 1 ∧ (0 : Rat) ≤ 1/10 ∧ (∀ j < 1 + 1, exT.c j = 1/10) ∧
+    (∀ j < 1, gamQ exT exQ (1 + j) = -gamQ exT exQ j) ∧ (∀ j < 1 + 1, 0 ≤ vec [3, 1] j) ∧
+    lagr exT exQ (vec [3, 1]) = 1/5 ∧ lagr exT exQ (project 1 (vec [3, 1])) = 2/5 := by
+  refine ⟨rfl, by norm_num, ?_, ?_, ?_, by decide +kernel, by decide +kernel⟩
+  · intro j hj
+    have : j = 0 ∨ j = 1 := by omega
+    rcases this with rfl | rfl <;> decide +kernel
+  · intro j hj
+    have : j = 0 := by omega
+    subst this; decide +kernel
+  · intro j hj
+    have : j = 0 ∨ j = 1 := by omega
+    rcases this with rfl | rfl <;> decide +kernel
+
 end R2
 
 end C08
